@@ -146,8 +146,10 @@ def k_by_rank(ctx: Ctx):
     from ..model import AnalysisError, own_scope_nodes
 
     res = ctx.res
+    from ..inline import with_inlined
+
     for q, kparam in K_SPARSE:
-        f = ctx.repo.func(q)
+        f = with_inlined(ctx.repo, ctx.repo.func(q))  # the ranking may live in a private helper
         if kparam not in f.all_params:
             raise AnalysisError(f"K-BY-RANK: {q} no longer has the count parameter `{kparam}`")
         kinds = {kparam: "COUNT"}
